@@ -41,6 +41,8 @@ import PercevalModel.Lemmas.C09Iter
 import PercevalModel.Lemmas.C09Job
 import PercevalModel.Lemmas.C09Perm
 import PercevalModel.Lemmas.C09Shots
+import PercevalModel.Lemmas.C09Loop
+import PercevalModel.Lemmas.C09Stop
 import Mathlib.Algebra.Order.Field.Rat
 import Mathlib.Tactic.FieldSimp
 import Mathlib.Tactic.Positivity
@@ -1279,5 +1281,308 @@ example : reorderLen none 250 = 210 := by
   rw [reorderLen_eq]; decide
 -- `lazy_shots_are_independent_draws`: hypotheses hold for one shot of a one-component input with a two-state backend law
 example : (∀ k ∈ ([[[1, 0]]] : List InDraw).flatten, k ∈ [[1, 0]]) := by decide
+
+
+/-! ## EXTENSION (round 6): the joint law over all pools, and the whole loop with its stopping rule
+
+Round 5 left three gaps: `pooled_run_refines_lazy` + `reordered_stream_has_the_same_law` were per stream and not
+composed; `lazy_shots_are_independent_draws` was for a GIVEN list of inputs and a FIXED number of shots.  Here:
+
+ (a) `pooled_run_succeeds_iff_lazy`: the refinement holds in both directions (the pooled provider fails exactly when
+     the lazy provider finds the re-ordered stream empty), so the two runs have the same value for EVERY observable;
+ (b) `pooled_run_has_the_lazy_law` / `…_with_detector_streams`: ONE statement over all pools — on independent ideal
+     streams (site `k` holds `n k` independent draws of `bk k`, sites independent) the run of the pooled provider
+     has the law of the run of the lazy provider on independent ideal streams of `reorderLen (weight k) (n k)`
+     draws (after what the pools already hold);
+ (c) `lazy_loop_is_a_reader`: the whole loop `loopG sfLazy` — the generator's batches, the shots, the stop when
+     `max_samples` are selected or `max_shots` shots are done — IS the run of the reading strategy `loopRd`;
+ (d) `sampling_loop_law_lazy`, `sampling_loop_law_pooled`: hence (Fubini for adaptive reading) its law on independent
+     ideal streams is `exLoop`: every shot a fresh independent draw of the one-shot law of its emitted input, the loop
+     stopping by its own rule (`sampling_loop_law_unfolds` spells the recursion out); for the pooled provider
+     (the code) the same, provided the pools hand out enough draws;
+ (e) `stopped_loop_returns_first_accepted_of_iid_shots`: when the emitted inputs share the one-shot law `d`, the
+     samples returned under the stopping rule are the first `max_samples` accepted ones among `max_shots`
+     independent shots of law `d` — the stopping rule does not bias them.
+
+`okVal F r` is `F` of the final loop state of a finished run and 0 for a run that ends in an error (a stream ran out,
+an error of the code); `noDet` forgets the detector draws left over. -/
+
+/-- (a) the pooled provider and the lazy provider on the re-ordered streams finish together, in the same loop state -/
+theorem pooled_run_succeeds_iff_lazy (c : SelCfg) (ms : Nat) (sh : Option Nat) (ge : Option String) (fuel : Nat)
+    (p : Prov) (s s' : Core) :
+    (∃ p', loopG sfPool c ms sh ge fuel p s = .ok (p', s')) ↔
+      (∃ q', loopG sfLazy c ms sh ge fuel (lazyOf p) s = .ok (q', s')) :=
+  loopG_pool_iff_lazy c ms sh ge fuel p s s'
+
+/-- (b) **the joint law over all pools** (backend streams; any loop state, so any detector streams) -/
+theorem pooled_run_has_the_lazy_law (bk : Fock → PM.Dist.D) (hbk : ∀ k, PM.Dist.mass (bk k) = 1) (ks : List Fock)
+    (n : Fock → ℕ) (pools : AL (List Fock)) (weights : AL Nat) (reqs : List (Fock × Nat))
+    (c : SelCfg) (ms : Nat) (sh : Option Nat) (ge : Option String) (fuel : Nat) (s : Core) (F : Core → ℚ) :
+    exStreams bk n ks (fun S => okVal F (loopG sfPool c ms sh ge fuel (poolProv pools weights reqs ks S) s)) =
+      exStreams bk (fun k => reorderLen (aget k weights) (n k)) ks
+        (fun R => okVal F (loopG sfLazy c ms sh ge fuel (fun k => agetD k pools [] ++ R k) s)) :=
+  pooled_run_joint bk hbk ks n pools weights reqs c ms sh ge fuel s F
+
+/-- (b') the same with the detector streams drawn too (sites `shotSites bks T`) -/
+theorem pooled_run_has_the_lazy_law_with_detector_streams (bk detK : Fock → PM.Dist.D)
+    (hbk : ∀ k, PM.Dist.mass (bk k) = 1) (len : Site → ℕ)
+    (pools : AL (List Fock)) (weights : AL Nat) (reqs : List (Fock × Nat)) (bks T : List Fock)
+    (c : SelCfg) (ms : Nat) (sh : Option Nat) (ge : Option String) (fuel : Nat) (s : Core) (F : Core → ℚ) :
+    exStreams (siteLaw bk detK) len (shotSites bks T) (fun Q => okVal F
+        (loopG sfPool c ms sh ge fuel (poolProv pools weights reqs bks (fun k => Q (.bk k)))
+          { s with det := detOf T Q })) =
+      exStreams (siteLaw bk detK) (siteLenT weights len) (shotSites bks T) (fun Q => okVal F
+        (loopG sfLazy c ms sh ge fuel (fun k => agetD k pools [] ++ Q (.bk k)) { s with det := detOf T Q })) :=
+  pooled_loop_joint bk detK hbk len pools weights reqs bks T c ms sh ge fuel s F
+
+/-- (c) the whole loop of the lazy provider is the run of the reading strategy `loopRd` on the joint streams -/
+theorem lazy_loop_is_a_reader (c : SelCfg) (ms : Nat) (sh : Option Nat) (ge : Option String) (F : Core → ℚ)
+    (fuel : Nat) (q : Fock → List Fock) (s : Core) :
+    okVal (fun r => F (noDet r)) (loopG sfLazy c ms sh ge fuel q s) =
+      valR F ((loopRd c ms sh ge fuel (noDet s)).run (joint q s.det)) :=
+  loopG_lazy_is_loopRd c ms sh ge F fuel q s
+
+/-- the recursion defining the law `exLoop` of the loop -/
+theorem sampling_loop_law_unfolds (bk detK : Fock → PM.Dist.D) (c : SelCfg) (ms : Nat) (sh : Option Nat)
+    (ge : Option String) (fuel : Nat) (s : Core) (F : Core → ℚ) :
+    exLoop bk detK c ms sh ge 0 s F = 0 ∧
+    exLoop bk detK c ms sh ge (fuel + 1) s F =
+      if !condR ms sh s then F s
+      else
+        match nextShot ms sh ge s with
+        | .error _ => 0
+        | .ok (s1, inp, rest) =>
+          (shotRd c.det inp).exR (siteLaw bk detK) fun o =>
+            match o with
+            | none => 0
+            | some st => exLoop bk detK c ms sh ge fuel (afterShot c s1 rest st) F :=
+  ⟨rfl, rfl⟩
+
+/-- (d) **the law of the sampling loop, stopping rule included, on independent ideal streams** (lazy provider) -/
+theorem sampling_loop_law_lazy (bk detK : Fock → PM.Dist.D) (hbk : ∀ k, PM.Dist.mass (bk k) = 1)
+    (hdet : ∀ st, PM.Dist.mass (detK st) = 1)
+    (c : SelCfg) (ms : Nat) (sh : Option Nat) (ge : Option String) (fuel : Nat) (s : Core) (bks T : List Fock)
+    (hbn : bks.Nodup) (hTn : T.Nodup) (len : Site → ℕ)
+    (hlen : ∀ x, shotsLen T (s.batch ++ s.gens.flatten) x ≤ len x)
+    (hout : ∀ x, x ∉ shotSites bks T → len x = 0)
+    (hT : ∀ inp ∈ s.batch ++ s.gens.flatten, ∀ vs st, CompVals bk inp vs → mergeAll vs = some st → st ∈ T)
+    (F : Core → ℚ) :
+    exStreams (siteLaw bk detK) len (shotSites bks T) (fun Q => okVal (fun r => F (noDet r))
+        (loopG sfLazy c ms sh ge fuel (fun k => Q (.bk k)) { s with det := detOf T Q })) =
+      exLoop bk detK c ms sh ge fuel (noDet s) F :=
+  lazy_loop_law bk detK hbk hdet c ms sh ge fuel s bks T hbn hTn len hlen hout hT F
+
+/-- (d') **the same for the code's pooled provider** (pools empty at the start, weights as they are) -/
+theorem sampling_loop_law_pooled (bk detK : Fock → PM.Dist.D) (hbk : ∀ k, PM.Dist.mass (bk k) = 1)
+    (hdet : ∀ st, PM.Dist.mass (detK st) = 1)
+    (c : SelCfg) (ms : Nat) (sh : Option Nat) (ge : Option String) (fuel : Nat) (s : Core) (bks T : List Fock)
+    (hbn : bks.Nodup) (hTn : T.Nodup) (weights : AL Nat) (reqs : List (Fock × Nat)) (len : Site → ℕ)
+    (hlen : ∀ x, shotsLen T (s.batch ++ s.gens.flatten) x ≤ siteLenT weights len x)
+    (hout : ∀ x, x ∉ shotSites bks T → len x = 0)
+    (hT : ∀ inp ∈ s.batch ++ s.gens.flatten, ∀ vs st, CompVals bk inp vs → mergeAll vs = some st → st ∈ T)
+    (F : Core → ℚ) :
+    exStreams (siteLaw bk detK) len (shotSites bks T) (fun Q => okVal (fun r => F (noDet r))
+        (loopG sfPool c ms sh ge fuel (poolProv [] weights reqs bks (fun k => Q (.bk k)))
+          { s with det := detOf T Q })) =
+      exLoop bk detK c ms sh ge fuel (noDet s) F :=
+  pooled_loop_law bk detK hbk hdet c ms sh ge fuel s bks T hbn hTn weights reqs len hlen hout hT F
+
+
+/-- (e) **the stopping rule does not bias the returned samples**: when every emitted input still in the batch has the
+one-shot law `d` (hypothesis `H`; e.g. `single_component_input_has_the_backend_law`), the loop with
+`max_samples = ms` and `max_shots = K` returns — for every observable `G` of the returned list — what one gets by
+drawing ALL the `K - shots` remaining shots independently from `d` and keeping the first `ms - |out|` accepted
+ones (`stoppedOut`). -/
+theorem stopped_loop_returns_first_accepted_of_iid_shots (bk detK : Fock → PM.Dist.D) (d : PM.Dist.D)
+    (hd : PM.Dist.mass d = 1) (c : SelCfg) (ms K : Nat) (ge : Option String) (G : List Fock → ℚ)
+    (fuel : ℕ) (s : Core) (hf : K - s.shots < fuel) (hb : K - s.shots ≤ s.batch.length)
+    (H : ∀ inp ∈ s.batch, ∀ g : Option Fock → ℚ,
+      (shotRd c.det inp).exR (siteLaw bk detK) g = ex d (fun t => g (some t))) :
+    exLoop bk detK c ms (some K) ge fuel s (fun s' => G s'.out) =
+      exN d (K - s.shots) (fun seen => G (stoppedOut c ms s.out seen)) ∧
+    (∀ seen, stoppedOut c ms s.out seen =
+      ((seen.filterMap (selOf c)).take (ms - s.out.length)).reverse ++ s.out) :=
+  ⟨stopped_loop_iid bk detK d hd c ms K ge G (K - s.shots) fuel s rfl hf hb H, fun _ => rfl⟩
+
+/-- (e') **the law of the returned samples under the stopping rule**: started on empty counters, the loop returns
+exactly `o` (in the order of the shots) with probability `stopW r N ms |o| · ∏ᵢ μ(oᵢ)` — a function of the NUMBER
+of samples times the product of the one-shot acceptance probabilities (`r` = one-shot rejection probability, `N` =
+shots allowed): given their number, the returned samples are independent, each with the conditional law; below
+`ms` the weight is the binomial one; and in `SimSpec` terms the product is
+`(mass retained)^|o| · ∏ᵢ conditioned(oᵢ)` — the law strong simulation reports. -/
+theorem returned_samples_law_under_the_stopping_rule (bk detK : Fock → PM.Dist.D) (d : PM.Dist.D)
+    (hd : PM.Dist.mass d = 1) (c : SelCfg) (ms K : Nat) (ge : Option String)
+    (fuel : ℕ) (s : Core) (hs : s.out = []) (hf : K - s.shots < fuel) (hb : K - s.shots ≤ s.batch.length)
+    (H : ∀ inp ∈ s.batch, ∀ g : Option Fock → ℚ,
+      (shotRd c.det inp).exR (siteLaw bk detK) g = ex d (fun t => g (some t)))
+    (o : List Fock) :
+    exLoop bk detK c ms (some K) ge fuel s (fun s' => if s'.out.reverse = o then 1 else 0) =
+      stopW (muNone d (selOf c)) (K - s.shots) ms o.length * (o.map (muSel d (selOf c))).prod ∧
+    (o.length < ms → stopW (muNone d (selOf c)) (K - s.shots) ms o.length =
+      ((K - s.shots).choose o.length : ℚ) * muNone d (selOf c) ^ (K - s.shots - o.length)) ∧
+    (∀ ps : PM.SimSpec.PS, c.psf = ps.eval → PM.Dist.mass (PM.SimSpec.retained (condOf c ps) d) ≠ 0 →
+      muNone d (selOf c) = 1 - PM.Dist.mass (PM.SimSpec.retained (condOf c ps) d) ∧
+      (o.map (muSel d (selOf c))).prod =
+        PM.Dist.mass (PM.SimSpec.retained (condOf c ps) d) ^ o.length *
+          (o.map (PM.Dist.get (PM.SimSpec.conditioned (condOf c ps) d))).prod) := by
+  refine ⟨?_, fun h => stopW_lt _ _ _ _ h, fun ps hps ha => ⟨muNone_eq c ps hps d hd, prod_muSel c ps hps d ha o⟩⟩
+  rw [stopped_loop_iid bk detK d hd c ms K ge (fun out => if out.reverse = o then 1 else 0) (K - s.shots) fuel s rfl
+    hf hb H, ← exN_first_accepted d hd (selOf c) (K - s.shots) ms o]
+  apply exN_congr'
+  intro l
+  unfold stoppedOut
+  rw [hs]
+  simp only [List.length_nil, Nat.sub_zero, List.append_nil, List.reverse_reverse]
+
+/-- an emitted input of one component under detectors that return the state as it is (no detector / PNR): its
+one-shot law is the backend's law for that component — hypothesis `H` of (e), (e') holds with `d = bk k` -/
+theorem single_component_input_has_the_backend_law (bk detK : Fock → PM.Dist.D) (k : Fock)
+    (g : Option Fock → ℚ) :
+    (shotRd .none [k]).exR (siteLaw bk detK) g = ex (bk k) (fun t => g (some t)) :=
+  shotRd_single_none bk detK k g
+
+/-! ### non-vacuity of the round-6 theorems -/
+
+/-- a backend that answers `|1,0>` or `|0,1>` with probability 1/2 each, whatever the input -/
+def exBk : Fock → PM.Dist.D := fun _ => [([1, 0], 1 / 2), ([0, 1], 1 / 2)]
+def exDetK : Fock → PM.Dist.D := fun st => [(st, 1)]
+/-- two emitted inputs `|1,0>` in the first batch -/
+def exCore2 : Core := ⟨[], [], 0, 0, 0, [[[1, 0]], [[1, 0]]], [], [], []⟩
+
+theorem exBk_mass : ∀ k, PM.Dist.mass (exBk k) = 1 := by
+  intro k
+  show PM.Dist.mass [(([1, 0] : Fock), (1 / 2 : ℚ)), ([0, 1], 1 / 2)] = 1
+  decide +kernel
+
+theorem exDetK_mass : ∀ st, PM.Dist.mass (exDetK st) = 1 := by
+  intro st
+  simp [exDetK, PM.Dist.mass]
+
+-- hypothesis `H` of (e), (e') on `exCore2` (photon filter 1, no detectors): `d = exBk |1,0>`
+example : ∀ inp ∈ exCore2.batch, ∀ g : Option Fock → ℚ,
+    (shotRd exSel.det inp).exR (siteLaw exBk exDetK) g = ex (exBk [1, 0]) (fun t => g (some t)) := by
+  intro inp hinp g
+  have : inp = [[1, 0]] := by
+    simp only [exCore2, List.mem_cons, List.not_mem_nil, or_false, or_self] at hinp
+    exact hinp
+  subst this
+  exact shotRd_single_none exBk exDetK [1, 0] g
+-- and the other hypotheses: 2 shots allowed, 2 inputs in the batch, fuel 5
+example : 2 - exCore2.shots < 5 ∧ 2 - exCore2.shots ≤ exCore2.batch.length ∧ exCore2.out = [] := by decide
+-- the weight of "one sample returned although two were wanted": C(2,1)·r, and of "two returned": 1
+example : stopW (1 / 2) 2 2 1 = 1 ∧ stopW (1 / 2) 2 2 2 = 1 ∧ stopW (1 / 2) 3 1 1 = 7 / 4 := by
+  refine ⟨?_, ?_, ?_⟩ <;> (simp only [stopW]; norm_num)
+
+
+-- hypotheses of `sampling_loop_law_lazy` / `sampling_loop_law_pooled` on `exCore2`: the input states are `|1,0>`, the
+-- states that may reach the detectors are the two answers of the backend
+theorem exCore2_merges : ∀ inp ∈ exCore2.batch ++ exCore2.gens.flatten, ∀ vs st, CompVals exBk inp vs →
+    mergeAll vs = some st → st ∈ [([1, 0] : Fock), [0, 1]] := by
+  intro inp hinp vs st hcv hm
+  have hi : inp = [[1, 0]] := by
+    simp only [exCore2, List.flatten_nil, List.append_nil, List.mem_cons, List.not_mem_nil, or_false,
+      or_self] at hinp
+    exact hinp
+  subst hi
+  unfold CompVals at hcv
+  cases hcv with
+  | cons h1 h2 =>
+    cases h2
+    obtain ⟨w, hw⟩ := h1
+    simp only [exBk, List.mem_cons, Prod.mk.injEq, List.not_mem_nil, or_false] at hw
+    rcases hw with ⟨rfl, _⟩ | ⟨rfl, _⟩
+    · have e : mergeAll [[1, 0]] = some [1, 0] := by decide
+      rw [e] at hm
+      cases hm
+      decide
+    · have e : mergeAll [[0, 1]] = some [0, 1] := by decide
+      rw [e] at hm
+      cases hm
+      decide
+
+/-- stream lengths for the pooled provider with weight 2 for `|1,0>`: two backend draws (one complete batch), two
+detector draws for each of the two states -/
+def exLen : Site → ℕ
+  | .bk k => if k = [1, 0] then 2 else 0
+  | .det st => if st ∈ [([1, 0] : Fock), [0, 1]] then 2 else 0
+
+theorem exLen_enough : ∀ x, shotsLen [[1, 0], [0, 1]] (exCore2.batch ++ exCore2.gens.flatten) x ≤
+    siteLenT [([1, 0], 2)] exLen x := by
+  intro x
+  cases x with
+  | bk k =>
+    by_cases hk : k = [1, 0]
+    · subst hk
+      have e : reorderLen (aget [1, 0] [(([1, 0] : Fock), 2)]) 2 = 2 := by
+        rw [reorderLen_eq]
+        simp only [aget, findKey, ↓reduceIte, Option.getD_some, minS, maxS, grow]
+        rw [show (2 - min 2 2000) = 0 by decide, reorderLen_zero]
+        decide
+      simp only [siteLenT, exLen, ↓reduceIte, e]
+      decide
+    · have hc : (exCore2.batch ++ exCore2.gens.flatten).flatten.count k = 0 := by
+        apply List.count_eq_zero.mpr
+        intro hmem
+        simp only [exCore2, List.flatten_nil, List.append_nil, List.flatten_cons, List.mem_append, List.mem_cons,
+          List.not_mem_nil, or_false, or_self] at hmem
+        exact hk hmem
+      simp only [shotsLen, hc, Nat.zero_le]
+  | det st => exact Nat.le_refl _
+
+theorem exLen_out : ∀ x, x ∉ shotSites [[1, 0]] [[1, 0], [0, 1]] → exLen x = 0 := by
+  intro x hx
+  cases x with
+  | bk k =>
+    have hk : k ≠ [1, 0] := fun e => hx ((bk_mem_shotSites _ _ k).2 (by rw [e]; decide))
+    simp only [exLen, hk, ↓reduceIte]
+  | det st =>
+    have hst : st ∉ [([1, 0] : Fock), [0, 1]] := fun e => hx ((det_mem_shotSites _ _ st).2 e)
+    simp only [exLen, hst, ↓reduceIte]
+
+-- the instance of `sampling_loop_law_pooled`: the code's provider on streams of 2 backend draws and 2 + 2 detector
+-- draws, `max_samples = 2`, `max_shots = 2`, any observable
+example (F : Core → ℚ) :
+    exStreams (siteLaw exBk exDetK) exLen (shotSites [[1, 0]] [[1, 0], [0, 1]]) (fun Q =>
+        okVal (fun r => F (noDet r)) (loopG sfPool exSel 2 (some 2) none 5
+          (poolProv [] [([1, 0], 2)] [] [[1, 0]] (fun k => Q (.bk k))) { exCore2 with det := detOf [[1, 0], [0, 1]] Q })) =
+      exLoop exBk exDetK exSel 2 (some 2) none 5 (noDet exCore2) F :=
+  sampling_loop_law_pooled exBk exDetK exBk_mass exDetK_mass exSel 2 (some 2) none 5 exCore2 [[1, 0]]
+    [[1, 0], [0, 1]] (by decide) (by decide) [([1, 0], 2)] [] exLen exLen_enough exLen_out exCore2_merges F
+-- … and the value of the right-hand side for "two samples are returned": both shots are accepted (each answer
+-- holds one photon, the filter asks for one)
+example : exLoop exBk exDetK exSel 2 (some 2) none 5 (noDet exCore2) (fun s => if s.out.length = 2 then 1 else 0) = 1 := by
+  decide +kernel
+-- `sampling_loop_law_lazy` on the streams of `shotsLen` themselves
+example (F : Core → ℚ) :
+    exStreams (siteLaw exBk exDetK) (shotsLen [[1, 0], [0, 1]] (exCore2.batch ++ exCore2.gens.flatten))
+        (shotSites [[1, 0]] [[1, 0], [0, 1]]) (fun Q =>
+        okVal (fun r => F (noDet r)) (loopG sfLazy exSel 2 (some 2) none 5 (fun k => Q (.bk k))
+          { exCore2 with det := detOf [[1, 0], [0, 1]] Q })) =
+      exLoop exBk exDetK exSel 2 (some 2) none 5 (noDet exCore2) F :=
+  sampling_loop_law_lazy exBk exDetK exBk_mass exDetK_mass exSel 2 (some 2) none 5 exCore2 [[1, 0]]
+    [[1, 0], [0, 1]] (by decide) (by decide) _ (fun _ => Nat.le_refl _)
+    (shotsLen_out [[1, 0]] [[1, 0], [0, 1]] _ (by decide)) exCore2_merges F
+-- `pooled_run_has_the_lazy_law`: its hypothesis (laws of mass 1) holds for `exBk`; the lengths handed out: a
+-- stream of 3 draws under weight 2 gives one complete batch
+example : reorderLen (some 2) 3 = 2 := by
+  rw [reorderLen_eq]
+  simp only [Option.getD_some, minS, maxS, grow]
+  rw [reorderLen_eq]
+  decide
+
+
+/-! ### what is still NOT a theorem after round 6 (validated by the correspondence only)
+
+  … the EMISSION of the inputs as a random site: `exLoop` is the law for GIVEN emitted inputs (the batches the
+    generator handed back); an emitted input is a list of Fock states while a `Reader` reads Fock states, so the
+    average over i.i.d. emissions from the trimmed mixture — which would turn the `d` of (e), (e') into the mixture
+    law `exShot` of theorem (4) for a noisy source — is not composed.  (e), (e') therefore ask that the inputs of the
+    batch share one one-shot law (`single_component_input_has_the_backend_law` is the proved instance);
+  … (e), (e') without shot limit, or across generator calls (the `K - shots` inputs must be in the current batch);
+    without shot limit the law is `exLoop` only — a closed form needs an infinite sum;
+  … the randomness of the draws `prepare` moves into the pools before the loop (`sampling_loop_law_pooled` starts on
+    empty pools; `pooled_run_has_the_lazy_law` takes the pools' content as given values);
+  … that the sites' ideal laws are the laws of the native sampler, of `Source.generate_samples` and of
+    `simulate_detectors_sample` (external; goodness-of-fit parts E/E2/E3 of the harness). -/
 
 end PM.C09
